@@ -687,6 +687,15 @@ func (loader *Loader) resolveHeaderRef(doc *T, component *HeaderRef, documentPat
 		return nil
 	}
 
+	for _, name := range componentNames(value.Content) {
+		if contentType := value.Content[name]; contentType != nil {
+			if schema := contentType.Schema; schema != nil {
+				if err := loader.resolveSchemaRef(doc, schema, documentPath, []string{}); err != nil {
+					return err
+				}
+			}
+		}
+	}
 	if schema := value.Schema; schema != nil {
 		if err := loader.resolveSchemaRef(doc, schema, documentPath, []string{}); err != nil {
 			return err
